@@ -187,7 +187,8 @@ def recover_only(R, env, prog, sites, RULE):
             return out
         Pn = norm(elem[1][2][0])
         for t in trs:
-            cands = [norm(a) for s_ in (subterms(t["amount"]) if t["amount"] is not None else []) if s_[0] == "call" and prog.body(s_[1]) is not None for a in s_[2]]
+            amts_ = [x_ for x_ in (t.get("amount_raw"), t["amount"]) if x_ is not None]  # (as written: the helper call with its argument)
+            cands = [norm(a) for am_ in amts_ for s_ in subterms(am_) if s_[0] == "call" and prog.body(s_[1]) is not None for a in s_[2]]
             if any(a == Pn for a in cands):
                 verdict = True
             else:
